@@ -10,7 +10,7 @@ CHECKS = {
     "C01": {
         "text": "Eight structural necessary conditions of walk exactness are decided on the walk loop, the regrouping helpers, the filter generator and both fetchers (all located by role): containment and seen-set guards on every path to the only yield, delivery of every batch, renewal of the loop variable, stride/offset/key agreement of the positional regrouping, provable ascending order of every request given to a truncating fetcher, continue-from-last / stop-on-leaving-root, marker cut-off and order preservation.",
         "note": "Trusted: ast, the analyser, x690 ObjectIdentifier containment/order semantics. Assumes a conformant agent and pairwise disjoint roots. Not decided: set equality of the yielded instances with an arbitrary agent database as a whole.",
-        "technique": "guard facts on all CFG paths + reaching definitions + must-pass-through + symbolic stride/offset agreement (static)",
+        "technique": "guard facts on all CFG paths + reaching definitions + must-pass-through + symbolic stride/offset agreement + abstract evaluation of small pure functions over enumerated finite / boundary domains with symbolic values (engine/minieval.py; nothing is imported or run) (static)",
     },
     "C02": {
         "text": "The bulk walk shares the GETNEXT walk's loop (delegation decided); in addition a container-kind analysis shows that every fetcher returns a faithful prefix of the response bindings (no OID-keyed container that collapses duplicates), the GETBULK size bound is decided against the RFC 3416 formula by simulating the operation's CFG on an integer grid, and request counters / response split / bulk size agree.",
@@ -20,7 +20,7 @@ CHECKS = {
     "C03": {
         "text": "Every function that can be the walk's fetcher is shown to compare each returned OID with its predecessor position by position, strictly (three orderings), before returning; every fetch in the loop is covered by a handler that ends the walk normally in lenient mode and re-raises otherwise; the loop variable is renewed on every path. Termination and no-re-request follow from these premises (argument recorded in the evidence).",
         "note": "Trusted: ast, the analyser, x690 OID ordering, finiteness of the OID universe the agent reveals. Not decided: the numeric request bound.",
-        "technique": "ordering evaluation of guards + index-arithmetic evaluation of pairing + handler coverage simulation (static)",
+        "technique": "ordering evaluation of guards + index-arithmetic evaluation of pairing + handler coverage simulation + abstract evaluation of small pure functions over enumerated finite / boundary domains with symbolic values (engine/minieval.py; nothing is imported or run) (static)",
     },
     "C04": {
         "text": "Request construction (PDU class, one binding per OID in caller order, NULL / typed SET value after refusal), count checks decided on the fewer/equal/more orderings by CFG simulation, faithful positional extraction, established length before constant subscripts, and typed missing-object detection are decided for get/getnext/set and their multi variants. One genuine defect is recorded as known finding (public multigetnext truncation).",
@@ -30,12 +30,12 @@ CHECKS = {
     "C05": {
         "text": "The shape (kinds, order, arity, provenance of every leaf) of every encoder reachable from the sender seam - PDU body, GETBULK framing, community wrapper, SNMPv3 message / header / flags / scoped PDU / USM parameters - is extracted from the source and compared with tables transcribed from RFC 1157/1901/3416/3412/3414; the flag octet is evaluated for all 8 combinations.",
         "note": "Trusted: ast, the analyser, the RFC tables. Not decided: x690's primitive encodings (integers, OIDs with large sub-identifiers, lengths) over their full ranges - numeric, delegated to x690.",
-        "technique": "BER shape extraction with provenance + RFC table comparison + constant folding (static)",
+        "technique": "BER shape extraction with provenance + RFC table comparison + constant folding + abstract evaluation of small pure functions over enumerated finite / boundary domains with symbolic values (engine/minieval.py; nothing is imported or run) (static)",
     },
     "C06": {
         "text": "Registration table of all SNMP types (class / tag / nature / signedness through the MRO, registry key collisions), unconditional import chain that triggers registration, and index/mask -> field maps of every decoder compared with the sibling encoder and the RFC tables (shape-level round trip).",
         "note": "Trusted: ast, the analyser, RFC tables. Not decided: value-level decoding over full ranges and all definite length forms (arithmetic inside x690).",
-        "technique": "class-table evaluation + decoder index-map extraction + sibling encoder/decoder agreement (static)",
+        "technique": "class-table evaluation + decoder index-map extraction + sibling encoder/decoder agreement + abstract evaluation of small pure functions over enumerated finite / boundary domains with symbolic values (engine/minieval.py; nothing is imported or run) (static)",
     },
     "C07": {
         "category": "proof",
@@ -46,7 +46,7 @@ CHECKS = {
     "C08": {
         "text": "Decides on all paths of PDU.decode_raw (simulated for negative, defined and undefined status values, every error-index region and list length) that a non-zero error-status raises ErrorResponse.construct(status, oid) and never returns; the status table, the index range check and the index mapping are decided exactly; handlers between decode and API are enumerated.",
         "note": "Trusted: ast, the analyser, the RFC 3416 status table. Not decided: nothing of substance (the x690 integer decoding of the three header fields is assumed, see C06).",
-        "technique": "CFG path simulation under concrete field scenarios + class-table evaluation + guard grid for tainted subscripts (static)",
+        "technique": "CFG path simulation under concrete field scenarios + class-table evaluation + guard grid for tainted subscripts + abstract evaluation of small pure functions over enumerated finite / boundary domains with symbolic values (engine/minieval.py; nothing is imported or run) (static)",
     },
     "C09": {
         "text": "Path-sensitive must-authenticate analysis: under the assumption atom 'credentials carry an auth key', every function on the way from the v3 decode entry to the auth plug-in raises on every path on which the digest check did not return truthy, including paths that never reach it (cleared flag); exactness of the digest comparison, placeholder/truncation constants and argument provenance are decided.",
@@ -86,12 +86,12 @@ CHECKS = {
     "C16": {
         "text": "Offset agreement of the two table variants (len(oid) vs len(oid)+1, evaluated symbolically), a symbolic slice algebra showing column = arc[base] and row index = all remaining arcs (complete multi-component index, stored under '0'), get-or-create row accumulation, and complete in-order consumption of the single-root walk.",
         "note": "Trusted: ast, the analyser. Assumes the walks deliver exactly the subtree (C01/C02). Not decided: equality with an arbitrary agent table as a whole (follows from the decided clauses plus C01/C02).",
-        "technique": "linear normaliser + symbolic slice algebra + syntactic get-or-create idiom check (static)",
+        "technique": "linear normaliser + symbolic slice algebra + syntactic get-or-create idiom check + abstract evaluation of small pure functions over enumerated finite / boundary domains with symbolic values (engine/minieval.py; nothing is imported or run) (static)",
     },
     "C17": {
         "text": "Counter32/Counter64 constructors executed over their CFG with a concrete integer at and around every region boundary, mask/threshold constants folded; numeric-kind inference forbids truncating an inexact float in the tick conversion and fixes the scale at 100 in both directions; IPv4 width and byte order; unsigned decode resolved through the MRO.",
         "note": "Trusted: ast, the analyser, RFC 2578 table. Boundary evaluation is exact for the piecewise mask/compare expressions used (regions are delimited by the folded constants). Not decided: x690's integer codec over full ranges; encode/decode round trip of each value.",
-        "technique": "integer-state CFG execution at region boundaries + numeric-kind inference + constant folding (static)",
+        "technique": "integer-state CFG execution at region boundaries + numeric-kind inference + constant folding + abstract evaluation of small pure functions over enumerated finite / boundary domains with symbolic values (engine/minieval.py; nothing is imported or run) (static)",
     },
     "C18": {
         "category": "proof",
